@@ -96,7 +96,9 @@ TSummary == /\ Is("summary") /\ ~loop /\ Ev.exitfail = gerr[0]
             /\ Consume /\ UNCHANGED vars
 \* the process has exited: every context that was used has been taken down
 TEnd == /\ Is("end") /\ AllOver /\ Consume /\ UNCHANGED vars
-TNext == TCancel \/ TCSet \/ TCExit \/ TRefused \/ TCmdKilled \/ TReset \/ TStLoop \/ TStDupCancel \/ TStDupSkip \/ TStPublish \/ TEnter \/ TRet \/ TNRet \/ TRunEnter \/ TRunExit \/ TCmdStart \/ TCmdEnd
+\* not recorded: the moment the runner's context is cancelled (between the events cancel and cset)
+TSilentCtxCancel == CtxCancel /\ UNCHANGED l
+TNext == TSilentCtxCancel \/ TCancel \/ TCSet \/ TCExit \/ TRefused \/ TCmdKilled \/ TReset \/ TStLoop \/ TStDupCancel \/ TStDupSkip \/ TStPublish \/ TEnter \/ TRet \/ TNRet \/ TRunEnter \/ TRunExit \/ TCmdStart \/ TCmdEnd
          \/ TCtxStart \/ TCtxEnd \/ TDownStart \/ TDownEnd \/ TDone \/ TSummary \/ TEnd
 HW == TLCSet(1, IF TLCGet(1) < l THEN l ELSE TLCGet(1))
 Accepted == TLCGet(1) = Len(Log) + 1
